@@ -263,6 +263,44 @@ func (e *Engine) evalEmitOnce(runs []emitRun) []emitObl {
 		if leMustNot {
 			add(base+":le", cprops, !differs, "emitted text must not depend on LittleEndian")
 		}
+		if leMust {
+			// every site of a byte-order dependent step must switch: if a word of the big-endian text
+			// (an accessor such as write_u16, an atom derived from the field) is replaced at one of its
+			// positions in the little-endian text, it must be replaced at all of them (a forgotten
+			// fallback / second write site would keep the big-endian accessor)
+			ok, detail := true, "no pair of LittleEndian / BigEndian paths with the same shape"
+			for _, pt := range r.paths {
+				if !pcHas(pt.pc, LE) {
+					continue
+				}
+				for _, pf := range r.paths {
+					if !pcHas(pf.pc, Not(LE)) {
+						continue
+					}
+					at, af := emitWords(pt.text), emitWords(pf.text)
+					if len(at) != len(af) {
+						continue
+					}
+					if detail != "" && ok {
+						detail = ""
+					}
+					total, repl := map[string]int{}, map[string]int{}
+					for i := range af {
+						total[af[i]]++
+						if at[i] != af[i] {
+							repl[af[i]]++
+						}
+					}
+					for w, n := range repl {
+						if n < total[w] {
+							ok = false
+							detail = fmt.Sprintf("%q of the big-endian text is replaced at %d of its %d positions in the little-endian text", w, n, total[w])
+						}
+					}
+				}
+			}
+			add(base+":le-sites", cprops, ok, detail)
+		}
 		if r.cell.Kind == "match" && r.entry.Dir == "dec" && (r.entry.Lang == "rust" || r.entry.Lang == "lua") {
 			all := map[string]bool{}
 			for _, p := range r.paths {
@@ -345,4 +383,31 @@ func cmdEmit(args []string) {
 		}
 	}
 	fmt.Printf("emit obligations=%d failed=%d runs=%d\n", n, bad, len(runs))
+}
+
+// emitWords: the emitted text as a sequence of words (identifier-like runs of the literal parts, and
+// each non-literal atom as one word).
+func emitWords(t *Term) []string {
+	var out []string
+	for _, a := range strAtoms(t) {
+		if a.K != KStrLit {
+			out = append(out, a.key)
+			continue
+		}
+		cur := ""
+		for _, r := range a.Name {
+			if r == '_' || r >= '0' && r <= '9' || r >= 'a' && r <= 'z' || r >= 'A' && r <= 'Z' {
+				cur += string(r)
+				continue
+			}
+			if cur != "" {
+				out = append(out, cur)
+				cur = ""
+			}
+		}
+		if cur != "" {
+			out = append(out, cur)
+		}
+	}
+	return out
 }
